@@ -21,6 +21,12 @@ unsigned vf_tree_trk_build(int a, int b, int c){ unsigned bad = 0; vf_mark();
 unsigned vf_tree_trk_move(int a, int b){ unsigned bad = 0; tree t{trk{a}}; t.push_back(trk{b}); vf_mark();
   tree u{std::move(t)};
   BAD(0, idv(u) == a && u.size() == 1 && idv(u.front().get_unsafe().get()) == b); return bad; }
+unsigned vf_tree_trk_front(int a, int b, int c){ unsigned bad = 0; vf_mark();      // the front / middle insertion overloads taking rvalues
+  tree t{trk{a}}; t.push_front(trk{b}); t.insert(t.begin(), trk{c});
+  BAD(0, idv(t) == a && t.size() == 2 && idv(t.front().get_unsafe().get()) == c && idv(t.back().get_unsafe().get()) == b); return bad; }
+unsigned vf_tree_trk_front_tree(int a, int b){ unsigned bad = 0; vf_mark();
+  tree t{trk{a}}; t.push_front(tree{trk{b}});
+  BAD(0, idv(t) == a && t.size() == 1 && idv(t.front().get_unsafe().get()) == b); return bad; }
 unsigned vf_tree_trk_pop(int a, int b){ unsigned bad = 0; tree t{trk{a}}; t.push_back(trk{b}); vf_mark();
   auto p{t.pop_back()};
   BAD(0, p.has_value() && idv(p.get_unsafe()) == b && t.empty() && idv(t) == a); return bad; }
